@@ -431,3 +431,27 @@ def leanchecker(modules, timeout=3000):
     if p.returncode != 0:
         return "leanchecker failed: %s" % p.stdout[-500:]
     return ""
+
+
+import contextlib
+import io
+
+
+@contextlib.contextmanager
+def captured():
+    """run a tool's main() with stdout/stderr captured; the tools' Tee objects re-assign sys.stdout /
+    sys.stderr (also from __del__), so both are restored afterwards whatever happened"""
+    import gc
+    so, se = sys.stdout, sys.stderr
+    buf = io.StringIO()
+    sys.stdout = buf
+    sys.stderr = io.StringIO()
+    try:
+        yield buf
+    finally:
+        gc.collect()
+        sys.stdout, sys.stderr = so, se
+
+
+def say(*a):
+    print(*a, file=sys.__stdout__, flush=True)
